@@ -730,9 +730,16 @@ class Program:
         body = [st for st in fn.node.body if not (isinstance(st, ast.Expr) and isinstance(st.value, ast.Constant))]
         env["__yields__"] = []
         env["__return__"] = True
-        inner_ = {id(x) for sub in ast.walk(fn.node) if sub is not fn.node and isinstance(sub, (ast.FunctionDef, ast.Lambda, ast.ListComp, ast.SetComp, ast.DictComp, ast.GeneratorExp)) for x in ast.walk(sub)}
-        env["__locals__"] = {x.id for x in ast.walk(fn.node) if isinstance(x, ast.Name) and isinstance(x.ctx, ast.Store) and id(x) not in inner_} \
-            - {g_ for st in ast.walk(fn.node) if isinstance(st, (ast.Global, ast.Nonlocal)) for g_ in st.names}
+        locals_ = getattr(fn, "_eval_locals", None)
+        if locals_ is None:
+            inner_ = {id(x) for sub in ast.walk(fn.node) if sub is not fn.node and isinstance(sub, (ast.FunctionDef, ast.Lambda, ast.ListComp, ast.SetComp, ast.DictComp, ast.GeneratorExp)) for x in ast.walk(sub)}
+            locals_ = frozenset({x.id for x in ast.walk(fn.node) if isinstance(x, ast.Name) and isinstance(x.ctx, ast.Store) and id(x) not in inner_}
+                                - {g_ for st in ast.walk(fn.node) if isinstance(st, (ast.Global, ast.Nonlocal)) for g_ in st.names})
+            try:
+                fn._eval_locals = locals_          # type: ignore[attr-defined]
+            except AttributeError:
+                pass
+        env["__locals__"] = locals_
         try:
             self._propagate(fn.module, body, env, fn.fq)
         except _FuncReturn as r:
